@@ -72,6 +72,21 @@ class StorageBackend(ABC):
         if read_only is not None:
             self.read_only = read_only
 
+    @staticmethod
+    def check_metadata_key(key: str):
+        """
+        Raises `ValueError` for a custom metadata key that no storage backend accepts. A key
+        ending in `.with_data` is reserved: next to the entry of a call, that is the name
+        under which a backend records that the value of the key without the suffix is kept
+        beside the data object.
+
+        """
+        if key is not None and key.endswith(".with_data"):
+            raise ValueError(
+                "Metadata key '{}' is not allowed: the suffix '.with_data' is "
+                "reserved".format(key)
+            )
+
     def get_memento(self, fn: FunctionReferenceWithArgHash) -> Memento:
         """
         Convenience method to call :meth:`get_mementos` with one argument. Returns None if
